@@ -175,6 +175,25 @@ def generate():
     rs, why = astlib.try_flag(reserved)
     out.append("Definition reserved_tbl : list (list Z) := %s.%s" % (
         "[" + "; ".join(_cp(k) for k in (rs or [])) + "]", "" if why is None else " (* %s *)" % why))
+    def arity_operand():
+        fn = astlib.find_func(tm, "get_fn_arity")
+        inner = astlib.find_func(fn, "_e")
+        ifs = [n for n in ast.walk(inner) if isinstance(n, ast.If) and ast.unparse(n.test).replace(" ", "") == "isinstance(f.args,list)"]
+        if len(ifs) != 1:
+            raise ShapeError("get_fn_arity._e: `if isinstance(f.args, list)` not found once")
+        node = ifs[0]
+        if not node.orelse:
+            return False
+        if len(node.orelse) == 1 and isinstance(node.orelse[0], ast.If):
+            e = node.orelse[0]
+            if ast.unparse(e.test).replace(" ", "") == "f.argsisnotNone" and not e.orelse and len(e.body) == 1 \
+                    and ast.unparse(e.body[0]).replace(" ", "") == "x.update(_e(f.args,level=1))":
+                return True
+        raise ShapeError("get_fn_arity._e: else-branch of the f.args test not recognised")
+    ao, why = astlib.try_flag(arity_operand)
+    out.append("Definition arity_scans_monad_operand : bool := %s.%s" % (
+        astlib.coq_bool(bool(ao)), "" if why is None else "  (* shape not recognised: %s *)" % why))
+    out.append("Definition arity_shape_ok : bool := %s." % astlib.coq_bool(why is None))
     return "\n".join(out) + "\n"
 
 
@@ -270,17 +289,29 @@ class Impl:
     def snapshot(self, k):
         return [{key: id(v) for key, v in d.items()} for d in k._context._context]
 
-    def parse(self, text, k=None):
-        """parse in module None (the module is parser state set by `.module(..)` inside a text: reset before and after)"""
+    def parse(self, text, k=None, module=None):
+        """parse with KlongInterpreter._module = module (None or a name).  The module is the one piece of parser state that
+        `.module(..)` inside a text changes: it is set before and reset after every parse; self.module_changed tells
+        whether the text switched it."""
         k = k or self.k
-        k._module = None
+        start = self.core.KGSym(module) if module else None
+        k._module = start
         r, n = self.budgeted(lambda: k.prog(text), BUDGET(len(text)))
+        self.module_changed = (k._module != start) if (k._module is None or start is None) else (str(k._module) != str(start))
         k._module = None
         return r, n
 
     def parse_keep_module(self, text, k):
         k._module = None
         return self.budgeted(lambda: k.prog(text), BUDGET(len(text)))
+
+    def strip_mod(self, c):
+        """canonical tree with every symbol cut at its module suffix (used only for texts that switch the module themselves)"""
+        if isinstance(c, (list, tuple)):
+            if len(c) == 2 and c[0] == "y" and isinstance(c[1], str):
+                return ["y", c[1].split("`")[0]]
+            return [self.strip_mod(x) for x in c]
+        return c
 
     # canonical dump -----------------------------------------------------------------
     def num(self, v, inlist):
@@ -318,7 +349,7 @@ class Impl:
         if isinstance(x, self.KGExprArray):
             return ["ea"] + [self.dump(y) for y in x]
         if isinstance(x, c.KGSym):
-            return ["y", str(x).split("`")[0]]
+            return ["y", str(x)]
         if isinstance(x, c.KGChar):
             return ["c", str(x)]
         if isinstance(x, str):
@@ -431,6 +462,10 @@ class Impl:
         if r[0] == "oof":
             return ("oof",)
         return ("bad", repr(r)[:100])
+
+
+def model_req_m(text, module, fuel=0):
+    return "(progm %d (%s) (%s))" % (fuel, " ".join(str(ord(c)) for c in module), " ".join(str(ord(c)) for c in text))
 
 
 def model_req(text, fuel=0):
@@ -558,6 +593,7 @@ class Oracle:
         impl = self.impl
         before = impl.snapshot(impl.k)
         r1, n1 = impl.parse(text)
+        self.module_changed = impl.module_changed
         after = impl.snapshot(impl.k)
         c1 = ("ok", impl.dump_prog(r1[1])) if r1[0] == "ok" else r1      # dumped before the second parse can touch it
         r2, n2 = impl.parse(text)
@@ -604,6 +640,7 @@ def check_all(chk, rng, impl, cases_iter):
     prop_bad, corr_bad = [], []
     orc = Oracle(impl)
     shapes = set()
+    modcases = []
     for (kind, text, ev), mr in zip(cases, model):
         chk.count("evaluations")
         chk.count("cases_" + kind)
@@ -622,10 +659,16 @@ def check_all(chk, rng, impl, cases_iter):
             ok = len(text) >= 100
         elif c1[0] == "ok":
             ok = (m[0] == "ok" and m[1] == c1[1])
+            if not ok and ".module" in text and m[0] == "ok":       # the text itself switched the module: not modelled
+                ok = impl.strip_mod(m[1]) == impl.strip_mod(c1[1])
+                chk.count("compared_without_module_suffix")
         elif c1[0] == "err":
             ok = (m[0] == "err" and m[1] == c1[1])
         if not ok:
             corr_bad.append({"kind": "model-differs", "text": text, "impl": repr(c1)[:400], "model": repr(m)[:400], "case": kind})
+        # ---- the same text parsed in a module (every line / witness / short string, a fifth of the rest)
+        if kind in ("line", "witness", "exh1", "exh2") or chk.counters["evaluations"] % 5 == 0:
+            modcases.append((kind, text))
         shapes.add((c1[0], c1[1] if c1[0] == "err" else None, kind))
         if c1[0] == "ok" and c1[1][1]:
             chk.count("parsed_nonempty")
@@ -634,6 +677,34 @@ def check_all(chk, rng, impl, cases_iter):
         if chk.counters["evaluations"] % 3001 == 7:
             chk.sample({"case": kind, "text": text[:80], "impl": c1[0] if c1[0] != "err" else c1[1], "events": n1,
                         "budget": BUDGET(len(text))}, limit=8)
+    # ---- parsing inside a module: symbols are qualified; compared with the model's read_sym under that module
+    if len(prop_bad) < 5:
+        mouts = chk.run_model([model_req_m(t, MODULES[i % 2]) for i, (_, t) in enumerate(modcases)])
+        for i, ((kind, text), mr) in enumerate(zip(modcases, mouts)):
+            md = MODULES[i % 2]
+            chk.count("evaluations")
+            chk.count("cases_in_module")
+            r1, n1 = impl.parse(text, module=md)
+            changed = impl.module_changed
+            c1 = ("ok", impl.dump_prog(r1[1])) if r1[0] == "ok" else r1
+            r2, n2 = impl.parse(text, module=md)
+            c2 = ("ok", impl.dump_prog(r2[1])) if r2[0] == "ok" else r2
+            if r1[0] == "hang" or c1 != c2:
+                prop_bad.append({"kind": "hang" if r1[0] == "hang" else "reparse-differs", "text": text, "module": md,
+                                 "first": repr(c1)[:300], "second": repr(c2)[:300], "case": kind})
+                if len(prop_bad) >= 5:
+                    break
+                continue
+            m = impl.mres(mr)
+            if c1[0] == "rec":
+                ok = len(text) >= 100
+            elif c1[0] == "ok":
+                ok = (m[0] == "ok" and m[1] == c1[1]) or (".module" in text and m[0] == "ok" and impl.strip_mod(m[1]) == impl.strip_mod(c1[1]))
+            else:
+                ok = (m[0] == "err" and m[1] == c1[1])
+            if not ok:
+                corr_bad.append({"kind": "model-differs", "text": text, "module": md, "impl": repr(c1)[:400], "model": repr(m)[:400],
+                                 "case": kind})
     # history independence: texts parsed early in the run are parsed again by the same interpreter after
     # everything else (all the malformed texts included) went through it
     for idx, probe in enumerate(orc.probes):
@@ -661,7 +732,97 @@ def check_all(chk, rng, impl, cases_iter):
     chk.counters["distinct_nontrivial"] = len([1 for (kind, text, ev) in cases if text.strip()])
     chk.counters["outcome_classes"] = len(shapes)
     chk.counters["max_budget_fraction_permille"] = int(orc.max_ratio * 1000)
+    chk.pool_err = list(orc.error_texts)
+    chk.pool_ok = [t for k_, t, _ in cases if k_ in ("line", "exh2", "rnd3") and len(t) < 300][:6000]
     return prop_bad, corr_bad, seen
+
+
+def check_histories(chk, rng, impl):
+    """the repeatability half on ONE interpreter: histories of 3-6 texts mixing malformed and well-formed ones (and module
+    switches); every parse is done twice and compared with a fresh interpreter's parse of the same text in the same module."""
+    n_hist = 400 if chk.tier == "quick" else 4000
+    pool_err = chk.pool_err or ["{"]
+    pool_ok = chk.pool_ok or ["1"]
+    nasty = ["{", "(", ":[", "[;", "f(", ":{", "{[a];", "{{", "((", ':"', '"', "0c", ".module(:zz)", ".module(0)", '.comment("q")',
+             ".module(:zz);a", "{.module(:zz)", "a::{", "f(1;", ":[1;2:|", "{x}'", "+/", "1e", "1e+", ":{1}", "{f([1])}"] + WITNESS_TEXTS
+    fresh = {}
+
+    def fresh_parse(text, md):
+        key = (text, md)
+        if key not in fresh:
+            r, _ = impl.parse(text, impl.K(), module=md)
+            fresh[key] = ("ok", impl.dump_prog(r[1])) if r[0] == "ok" else r
+        return fresh[key]
+    for h in range(n_hist):
+        k = impl.K()
+        hist = []
+        for j in range(rng.randint(3, 6)):
+            u = rng.random()
+            text = rng.choice(nasty) if u < 0.3 else (rng.choice(pool_err) if u < 0.6 else rng.choice(pool_ok))
+            md = rng.choice([None, None, "m", "geo2"])
+            hist.append([text, md])
+            chk.count("evaluations")
+            chk.count("cases_history_parse")
+            for rep in (1, 2):
+                r, n = impl.parse(text, k, module=md)
+                c = ("ok", impl.dump_prog(r[1])) if r[0] == "ok" else r
+                if r[0] == "hang":
+                    return {"kind": "hang", "text": text, "module": md, "history": hist[:-1]}
+                want = fresh_parse(text, md)
+                if c != want:
+                    return {"kind": "reparse-after-other-texts-differs", "text": text, "module": md, "history": hist[:-1],
+                            "parse_number": rep, "fresh_interpreter": repr(want)[:300], "later": repr(c)[:300]}
+        chk.count("histories")
+    return None
+
+
+def check_call_cache(chk, rng, impl):
+    """KlongInterpreter.__call__ keeps parsed programs in a cache keyed by (text, module).  The cached program must be the
+    program a fresh parse gives in that module, and evaluating through the cache must equal evaluating a fresh parse."""
+    texts = [t for t in chk.pool_ok if can_eval(t)]
+    rng.shuffle(texts)
+    texts = texts[:300 if chk.tier == "quick" else 3000] + ["a::7;a", "b::{x+1};b(2)", "a", ".module(:zz);a", "q::3"]
+    kc, kt = impl.K(), impl.K()          # kc: through __call__ (cache); kt: fresh parse + call, the twin
+    for kk in (kc, kt):
+        kk("t::{y~z}")
+    for text in texts:
+        for md in (None, "m", None, "geo2"):
+            sym = impl.core.KGSym(md) if md else None
+            chk.count("evaluations")
+            chk.count("cases_call_cache")
+            kc._module = sym
+            e1, _ = impl.budgeted(lambda: kc(text), EVAL_BUDGET + BUDGET(len(text)))
+            kc._module = None
+            kt._module = sym
+            p, _ = impl.budgeted(lambda: kt.prog(text)[1], BUDGET(len(text)))
+            kt._module = None
+            if p[0] == "ok":
+                prog_ = p[1]
+
+                def ev():
+                    r = [kt.call(y) for y in prog_]
+                    return r[-1] if r else None
+                e2, _ = impl.budgeted(ev, EVAL_BUDGET)
+            else:
+                e2 = p
+            d1 = ("ok", impl.dump_value(e1[1])) if e1[0] == "ok" else e1
+            d2 = ("ok", impl.dump_value(e2[1])) if e2[0] == "ok" else e2
+            if d1 != d2 and "hang" not in (d1[0], d2[0]):
+                return {"kind": "evaluation-through-parse-cache-differs", "text": text, "module": md,
+                        "through_cache": repr(d1)[:300], "fresh_parse": repr(d2)[:300]}
+            cached = kc._parse_cache.get((text, sym))
+            if cached is not None and p[0] == "ok":
+                want = p[1][0] if len(p[1]) == 1 else p[1]
+                old = sys.getrecursionlimit()
+                sys.setrecursionlimit(20000)
+                try:
+                    a, b = impl.dump(cached), impl.dump(want)
+                finally:
+                    sys.setrecursionlimit(old)
+                if a != b:
+                    return {"kind": "cached-program-differs-from-fresh-parse", "text": text, "module": md,
+                            "cached": repr(a)[:300], "fresh_parse": repr(b)[:300]}
+    return None
 
 
 def check_lexer(chk, impl):
@@ -726,11 +887,12 @@ def search_failing(chk, rng, impl, seeds, seen):
         bad, _, _ = orc.check("search", text, False)
         if bad is not None:
             return bad
-        if n >= 150000:
+        if n >= (60000 if chk.tier == "quick" else 400000):
             break
     return None
 
 
+MODULES = ["m", "geo2"]
 R6_TEXT = '.comment("")'
 WITNESS_TEXTS = [R6_TEXT, R6_TEXT + " 1", "a::1;" + R6_TEXT + "\nb", '.comment("")"")', ".comment(0c )", '.comment("q")q',
                  '.comment("ab")ababab 1', ".comment(x) x", 'f(.comment(""))', '{.comment("")}']
@@ -755,6 +917,10 @@ def run(tier, replay=None):
         prop_bad, corr_bad, seen = check_all(chk, rng, impl, cases)
         for b in check_lexer(chk, impl):
             (prop_bad if b["kind"] == "hang" else corr_bad).append(b)
+        if len(prop_bad) < 5:
+            for b in (check_histories(chk, rng, impl), check_call_cache(chk, rng, impl)):
+                if b is not None:
+                    prop_bad.append(b)
         reported = []
         for bp in prop_bad:
             if bp["kind"] == "hang" and known and '.comment("")' in bp["text"].replace(" ", ""):
